@@ -50,44 +50,44 @@ LOAD = {
     'folded_more_indented': lambda n: 'k: >\n' + ('  ' + W + '\n   ' + W + '\n\n') * n,
     'literal_keep_blank_tail': lambda n: 'k: |+\n  a\n' + '\n' * n,
     # many entries
-    'block_seq':            lambda n: _lines('- item%(i)d\n', n),
-    'block_seq_typed':      lambda n: _lines('- %(i)d\n- 1.5\n- true\n- 2001-01-01\n- ~\n', n // 5 + 1),
+    'block_seq':            lambda n: _lines('- item%(i)07d\n', n),
+    'block_seq_typed':      lambda n: _lines('- %(i)07d\n- 1.5\n- true\n- 2001-01-01\n- ~\n', n // 5 + 1),
     'flow_seq_one_line':    lambda n: '[' + ', '.join(['a'] * n) + ']\n',
     'flow_seq_multi_line':  lambda n: '[\n' + ',\n'.join(['  a, b'] * n) + '\n]\n',
-    'block_map':            lambda n: _lines('key%(i)d: v\n', n),
-    'flow_map_one_line':    lambda n: '{' + ', '.join('k%d: v' % i for i in range(n)) + '}\n',
-    'flow_map_multi_line':  lambda n: '{\n' + ',\n'.join('  k%d: v' % i for i in range(n)) + '\n}\n',
-    'map_of_seqs':          lambda n: _lines('k%(i)d:\n  - a\n  - b\n', n),
+    'block_map':            lambda n: _lines('key%(i)07d: v\n', n),
+    'flow_map_one_line':    lambda n: '{' + ', '.join('k%07d: v' % i for i in range(n)) + '}\n',
+    'flow_map_multi_line':  lambda n: '{\n' + ',\n'.join('  k%07d: v' % i for i in range(n)) + '\n}\n',
+    'map_of_seqs':          lambda n: _lines('k%(i)07d:\n  - a\n  - b\n', n),
     'seq_of_maps':          lambda n: _lines('- a: 1\n  b: 2\n', n),
     'seq_of_flow_seqs':     lambda n: _lines('- [a, b, c, d, e, f, g, h]\n', n),
-    'explicit_keys':        lambda n: _lines('? key%(i)d\n: v\n', n),
-    'set_entries':          lambda n: '!!set\n' + _lines('? e%(i)d\n', n),
-    'omap_entries':         lambda n: '!!omap\n' + _lines('- k%(i)d: v\n', n),
-    'merge_keys':           lambda n: 'base: &b {x: 1, y: 2}\nl:\n' + _lines('  - {<<: *b, z: %(i)d}\n', n),
+    'explicit_keys':        lambda n: _lines('? key%(i)07d\n: v\n', n),
+    'set_entries':          lambda n: '!!set\n' + _lines('? e%(i)07d\n', n),
+    'omap_entries':         lambda n: '!!omap\n' + _lines('- k%(i)07d: v\n', n),
+    'merge_keys':           lambda n: 'base: &b {x: 1, y: 2}\nl:\n' + _lines('  - {<<: *b, z: %(i)07d}\n', n),
     # many documents
-    'documents':            lambda n: _lines('--- d%(i)d\n', n),
-    'documents_explicit_end': lambda n: _lines('--- d%(i)d\n...\n', n),
-    'documents_tag_directive': lambda n: _lines('%%TAG !e! tag:yaml.org,2002:\n--- !e!str d%(i)d\n...\n', n),
+    'documents':            lambda n: _lines('--- d%(i)07d\n', n),
+    'documents_explicit_end': lambda n: _lines('--- d%(i)07d\n...\n', n),
+    'documents_tag_directive': lambda n: _lines('%%TAG !e! tag:yaml.org,2002:\n--- !e!str d%(i)07d\n...\n', n),
     # anchors
-    'anchors_then_aliases': lambda n: _lines('- &a%(i)d x\n', n) + _lines('- *a%(i)d\n', n),
+    'anchors_then_aliases': lambda n: _lines('- &a%(i)07d x\n', n) + _lines('- *a%(i)07d\n', n),
     'one_anchor_many_aliases': lambda n: '- &a [x]\n' + '- *a\n' * n,
-    'anchored_collections': lambda n: _lines('- &a%(i)d [x, y]\n- *a%(i)d\n', n),
+    'anchored_collections': lambda n: _lines('- &a%(i)07d [x, y]\n- *a%(i)07d\n', n),
     # comments, blanks
     'comment_one_long':     lambda n: 'a: 1  # ' + ' '.join([W] * n) + '\nb: 2\n',
     'comment_lines':        lambda n: 'a: 1\n' + ('# ' + W + ' ' + W + '\n') * n + 'b: 2\n',
-    'comment_after_entries': lambda n: _lines('- a%(i)d # c\n', n),
+    'comment_after_entries': lambda n: _lines('- a%(i)07d # c\n', n),
     'blank_lines':          lambda n: 'a: 1\n' + '\n' * n + 'b: 2\n',
     'blank_lines_with_spaces': lambda n: 'a: 1\n' + '    \n' * n + 'b: 2\n',
     'trailing_spaces':      lambda n: 'a: 1' + ' ' * n + '\nb: 2\n',
     'blank_lines_in_plain': lambda n: 'a: x\n' + '\n' * n + '  y\n',
     # long keys around the 1024-character limit, long tags, long anchors
-    'keys_just_under_limit': lambda n: _lines(('k%(i)04d' + 'x' * 1000) + ': v\n', n),
-    'explicit_keys_over_limit': lambda n: _lines('? ' + ('k%(i)04d' + 'x' * 1100) + '\n: v\n', n),
+    'keys_just_under_limit': lambda n: _lines(('k%(i)07d' + 'x' * 1000) + ': v\n', n),
+    'explicit_keys_over_limit': lambda n: _lines('? ' + ('k%(i)07d' + 'x' * 1100) + '\n: v\n', n),
     'one_explicit_key_growing': lambda n: '? ' + ' '.join([W] * n) + '\n: v\n',
-    'quoted_keys_just_under_limit': lambda n: _lines('"k%(i)04d' + ' x' * 500 + '": v\n', n),
+    'quoted_keys_just_under_limit': lambda n: _lines('"k%(i)07d' + ' x' * 500 + '": v\n', n),
     'tag_one_long':         lambda n: '!<tag:e.org,2000:' + 'x' * n + '> v\n',
     'tag_uri_escapes':      lambda n: '!<tag:e.org,2000:' + '%41' * n + '> v\n',
-    'tagged_entries':       lambda n: _lines('- !!str v%(i)d\n', n),
+    'tagged_entries':       lambda n: _lines('- !!str v%(i)07d\n', n),
     'anchor_one_long':      lambda n: '- &' + 'a' * n + ' v\n',
     # nesting (moderate: the composer recurses)
     'nested_flow_seqs':     lambda n: '[' * n + ']' * n + '\n',
@@ -145,7 +145,7 @@ def _shared(n):
 def _anchored(n):
     out = []
     for i in range(n):
-        x = [i]
+        x = [1000000 + i]
         out += [x, x]
     return out
 
@@ -178,33 +178,33 @@ DUMP = {
     'str_folded_lines':    (lambda n: (W + ' ' + W + '\n') * n, {'default_style': '>'}),
     'str_folded_long_line': (lambda n: ' '.join([W] * n) + '\n', {'default_style': '>'}),
     'str_plain_unicode':   (lambda n: 'é ' * n + 'x', {'allow_unicode': True}),
-    'ints':                (lambda n: list(range(n)), {}),
-    'floats':              (lambda n: [i + 0.5 for i in range(n)], {}),
+    'ints':                (lambda n: list(range(1000000, 1000000 + n)), {}),
+    'floats':              (lambda n: [1000000 + i + 0.5 for i in range(n)], {}),
     'mixed_scalars':       (lambda n: [None, True, 1, 1.5, 'x', ''] * (n // 6 + 1), {}),
-    'strs':                (lambda n: ['s%d' % i for i in range(n)], {}),
-    'strs_needing_quotes': (lambda n: ['%d: x' % i for i in range(n)], {}),
-    'dict_sorted':         (lambda n: {'k%05d' % ((i * 7919) % n): i for i in range(n)}, {'sort_keys': True}),
-    'dict_unsorted':       (lambda n: {'k%05d' % ((i * 7919) % n): i for i in range(n)}, {'sort_keys': False}),
-    'dict_int_keys':       (lambda n: {i: i for i in range(n)}, {}),
-    'dict_long_keys':      (lambda n: {('k%05d' % i) + 'x' * 140: i for i in range(n)}, {}),
-    'set_of_ints':         (lambda n: set(range(n)), {}),
-    'list_of_dicts':       (lambda n: [{'a': i, 'b': 'x'} for i in range(n)], {}),
-    'list_of_lists':       (lambda n: [[i, i] for i in range(n)], {}),
-    'flow_style_wide':     (lambda n: list(range(n)), {'default_flow_style': True}),
-    'flow_style_dict':     (lambda n: {'k%d' % i: i for i in range(n)}, {'default_flow_style': True}),
+    'strs':                (lambda n: ['s%07d' % i for i in range(n)], {}),
+    'strs_needing_quotes': (lambda n: ['%07d: x' % i for i in range(n)], {}),
+    'dict_sorted':         (lambda n: {'k%07d' % ((i * 7919) % n): 7 for i in range(n)}, {'sort_keys': True}),
+    'dict_unsorted':       (lambda n: {'k%07d' % ((i * 7919) % n): 7 for i in range(n)}, {'sort_keys': False}),
+    'dict_int_keys':       (lambda n: {1000000 + i: 7 for i in range(n)}, {}),
+    'dict_long_keys':      (lambda n: {('k%07d' % i) + 'x' * 140: 7 for i in range(n)}, {}),
+    'set_of_ints':         (lambda n: set(range(1000000, 1000000 + n)), {}),
+    'list_of_dicts':       (lambda n: [{'a': 1000000 + i, 'b': 'x'} for i in range(n)], {}),
+    'list_of_lists':       (lambda n: [[1000000 + i, 7] for i in range(n)], {}),
+    'flow_style_wide':     (lambda n: list(range(1000000, 1000000 + n)), {'default_flow_style': True}),
+    'flow_style_dict':     (lambda n: {'k%07d' % i: 7 for i in range(n)}, {'default_flow_style': True}),
     'one_shared_many_refs': (_shared, {}),
     'many_shared_objects': (_anchored, {}),
     'nested_lists':        (_nested, {}),
     'nested_dicts':        (_nested_dict, {}),
     'nested_lists_flow':   (_nested, {'default_flow_style': True}),
-    'canonical_list':      (lambda n: ['s%d' % i for i in range(n)], {'canonical': True}),
-    'explicit_start_end':  (lambda n: ['s%d' % i for i in range(n)], {'explicit_start': True, 'explicit_end': True}),
+    'canonical_list':      (lambda n: ['s%07d' % i for i in range(n)], {'canonical': True}),
+    'explicit_start_end':  (lambda n: ['s%07d' % i for i in range(n)], {'explicit_start': True, 'explicit_end': True}),
     'wide_indent_width':   (lambda n: ' '.join([W] * n), {'indent': 8, 'width': 30}),
     'bytes_binary':        (lambda n: b'\x00\x01binary' * n, {}),
 }
 DUMP_ALL = {
-    'documents':           (lambda n: ['d%d' % i for i in range(n)], {}),
-    'documents_of_lists':  (lambda n: [[i, 'x'] for i in range(n)], {'explicit_start': True}),
+    'documents':           (lambda n: ['d%07d' % i for i in range(n)], {}),
+    'documents_of_lists':  (lambda n: [[1000000 + i, 'x'] for i in range(n)], {'explicit_start': True}),
 }
 DUMP_NESTED = {'nested_lists', 'nested_dicts', 'nested_lists_flow'}
 
@@ -270,7 +270,10 @@ def measure_calls(task):
         gen, kw = (DUMP_ALL if api == 'dump_all' else DUMP)[fam]
         f = dump_apis(yaml)[api]
         if api in ('serialize', 'emit'):
-            kw = {k: v for k, v in kw.items() if k not in ('default_style', 'default_flow_style', 'sort_keys')}
+            if api == 'emit':
+                kw = {k: v for k, v in kw.items() if k in ('canonical', 'indent', 'width', 'allow_unicode', 'line_break')}
+            else:
+                kw = {k: v for k, v in kw.items() if k not in ('default_style', 'default_flow_style', 'sort_keys')}
             f(gen(16), kw)()
             unit = count_calls(f(gen(PROBE_N), kw)) // PROBE_N
         else:
@@ -352,7 +355,7 @@ def make_probes(yaml):
 
 
 def measure_prims(task):
-    """task = (side, family, api, sizes) -> (prim record, units ratio record)"""
+    """task = (side, family, api, sizes) -> prim record for Trace_Work"""
     from .common import use_repo
     yaml = use_repo()
     side, fam, api, sizes = task
@@ -389,7 +392,7 @@ def measure_prims(task):
     n0 = sizes[0]
     depth = DEPTH.get(fam, lambda n: 4)(sizes[-1]) if side == 'load' else 0
     flow = FLOW.get(fam, lambda n: 3)(sizes[-1]) if side == 'load' else 0
-    prim = {'kind': 'prim', 'family': fam, 'api': api, 'n': n0, 'q': q, 'k': k, 'b': b, 'e': e, 'depth': depth, 'flow': flow,
-            'look': look, 'block': block if block > 0 else 0, 'size': size}
-    ratio = {'kind': 'ratio', 'family': fam, 'api': api + '/units', 'n': n0, 'w': units}
-    return prim, ratio
+    # 'units' (summed primitive lengths) is carried for the evidence file only: below the saturation of the
+    # simple-key table (1024 characters) and of the first reader block it is not yet linear, so it is not judged
+    return {'kind': 'prim', 'family': fam, 'api': api, 'n': n0, 'q': q, 'k': k, 'b': b, 'e': e, 'depth': depth, 'flow': flow,
+            'look': look, 'block': block if block > 0 else 0, 'size': size, 'units': units}
